@@ -1,8 +1,11 @@
 #!/bin/bash
-# re-runs every seeded change against the current checks; one line per change
+# re-runs every seeded change against the current checks (harness + compiled model; the Lean stage is skipped for speed,
+# FAST=0 includes it); one line per change. Behaviour-preserving refactorings (ids ending in r) are skipped: see eval_refactor.sh
 cd /verif
+FLAGS="--no-lean"; [ "$FAST" = "0" ] && FLAGS=""
 for d in seeded/*/; do
   id=$(basename $d)
+  case "$id" in *r) continue;; esac
   props=$(python3 -c "
 import json
 m=json.load(open('$d/meta.json')); d=m.get('detected_by',[])
@@ -14,8 +17,13 @@ print(' '.join(d) if d else m.get('property','${id:0:3}'))")
   cd /verif
   res=""
   for p in $props; do
-    out=$(./check $p --tier quick 2>/dev/null | grep -v "^KNOWN" | tail -1)
-    case "$out" in *"exit 1") v=$(./check $p --tier quick 2>/dev/null | grep -c "no-failing-input-found"); res="$res $p:DETECTED$( [ "$v" != "0" ] && echo '(no-input)')";; *"exit 0") res="$res $p:MISSED";; *) res="$res $p:??";; esac
+    out=$(./check $p --tier quick $FLAGS 2>/dev/null | grep -v "^KNOWN")
+    last=$(echo "$out" | tail -1)
+    case "$last" in
+      *"exit 1") if echo "$out" | grep "^VIOLATION" | grep -qv "no-failing-input-found"; then res="$res $p:DETECTED"; else res="$res $p:DETECTED(no-input)"; fi;;
+      *"exit 0") res="$res $p:MISSED";;
+      *) res="$res $p:??";;
+    esac
   done
   git -C /repo checkout -- .
   echo "$id:$res"
